@@ -83,8 +83,8 @@ class C07(Prop):
     reach_required = ['reader.read_env', 'reader.read_arg', 'reader.unclosed_env_handler', 'reader.read_args']
     min_nontrivial = 2000
     budget_s = {'quick': 300, 'thorough': 3600}
-    exhaustive = {'quick': 'all strings of <= 2 tokens over the 68-token alphabet',
-                  'thorough': 'all strings of <= 3 tokens over the 68-token alphabet; '
+    exhaustive = {'quick': 'all strings of <= 2 tokens over the 70-token alphabet',
+                  'thorough': 'all strings of <= 3 tokens over the 70-token alphabet; '
                               'every closer and every truncation point of the (b) documents'}
 
     def cases(self, tier, seed, want):
